@@ -472,3 +472,20 @@ Definition joined_by_name (name : Z -> Z) (uris : list Z) : list nat := map snd 
    `connected` and `fully_connected`. *)
 Definition member_open_ends (open_link_ends params_complete : bool) : bool := open_link_ends.
 Definition member_open_waiting_ends (open_link_ends params_complete : bool) : bool := open_link_ends && params_complete.
+
+(* ---------------------------------------------------------------- close_link return values (Wave 17) *)
+(* close_links calls cf.close_link() on every member and ignores what it returns (None for SyncCrazyflie).  `ret k` is
+   what member k's close_link() would return (Some false = "there was no open link").  The variant accumulates
+   `all_were_open = all_were_open and cf.close_link() is not False`: after the first False no later member is closed. *)
+Definition close_calls_head (c : cfg) (ret : nat -> option bool) : list nat := seq 0 (n c).
+Fixpoint close_calls_sc (ret : nat -> option bool) (ks : list nat) (all_open : bool) : list nat :=
+  match ks with
+  | [] => []
+  | k :: r => if all_open
+              then k :: close_calls_sc ret r (match ret k with Some false => false | _ => true end)
+              else close_calls_sc ret r false
+  end.
+Definition close_calls_shortcircuit (c : cfg) (ret : nat -> option bool) : list nat := close_calls_sc ret (seq 0 (n c)) true.
+(* is member k's link open afterwards, given which links were open before and which members were closed *)
+Definition link_open_after (open_before : nat -> bool) (closed : list nat) (k : nat) : bool :=
+  open_before k && negb (existsb (Nat.eqb k) closed).
